@@ -808,6 +808,12 @@ func (w *Worker) symFloatToInt(f *Term, k intKind) Value {
 		if !w.path.Branch(tAnd(lt, ge)) {
 			return wrapConc(math.MinInt64, k)
 		}
+		// |i| <= 2^53: the conversion is exact, the round trip is the identity
+		lim53 := new(big.Int).Set(pow2(53))
+		small := tAnd(tLe(i, intConstBig(lim53)), tGe(i, intConstBig(new(big.Int).Neg(lim53))))
+		if w.path.Branch(small) {
+			return lowerInt(tWrap(i, k.bits, k.signed), k)
+		}
 		w.stub("int64(float64(i)) for |i| > 2^53: any value within 1024 of i (over-approximation of the rounding)")
 		h1, h2 := i.hash()
 		rkey := fmt.Sprintf("f2i/%x.%x", h1, h2)
